@@ -185,6 +185,43 @@ Proof.
   - exists ui. split; [reflexivity|exact Hui].
 Qed.
 
+(* ------------------------------------------------------------------ scheme flags *)
+Lemma scheme_flags_spec schema t :
+  let fl := scheme_flags schema t in
+  (fst (fst (fst fl)) = true <-> schema = S_HTTP) /\
+  (snd (fst (fst fl)) = true <-> schema = S_HTTPS \/ schema = []) /\
+  (snd (fst fl) = true <-> schema = [] \/ In schema supported_schemes) /\
+  (In schema websocket_schemes -> snd fl = RT_Websocket) /\
+  (~ In schema websocket_schemes -> snd fl = cpt_match_type t).
+Proof.
+  destruct schema as [|c0 s0]; cbn zeta.
+  { unfold scheme_flags. cbn [fst snd].
+    split; [split; intros H; discriminate|].
+    split; [split; [intros _; right; reflexivity|reflexivity]|].
+    split; [split; [intros _; left; reflexivity|reflexivity]|].
+    split; [intros [H|[H|[]]]; discriminate|reflexivity]. }
+  unfold scheme_flags. cbv iota beta zeta.
+  remember (c0 :: s0) as sch eqn:Es.
+  assert (Hne : sch <> []) by (subst; discriminate). cbn [fst snd].
+  unfold supported_schemes, websocket_schemes.
+  pose proof (str_eqb_eq sch S_HTTP) as E1. pose proof (str_eqb_eq sch S_HTTPS) as E2.
+  pose proof (str_eqb_eq sch S_WS) as E3. pose proof (str_eqb_eq sch S_WSS) as E4.
+  assert (D12 : S_HTTP <> S_HTTPS) by discriminate. assert (D13 : S_HTTP <> S_WS) by discriminate.
+  assert (D14 : S_HTTP <> S_WSS) by discriminate. assert (D23 : S_HTTPS <> S_WS) by discriminate.
+  assert (D24 : S_HTTPS <> S_WSS) by discriminate. assert (D34 : S_WS <> S_WSS) by discriminate.
+  destruct (str_eqb sch S_HTTP) eqn:B1; destruct (str_eqb sch S_HTTPS) eqn:B2;
+    destruct (str_eqb sch S_WS) eqn:B3; destruct (str_eqb sch S_WSS) eqn:B4; cbn [negb andb orb In];
+    repeat match goal with
+           | H : true = true <-> _ |- _ => pose proof (proj1 H eq_refl); clear H
+           | H : false = true <-> _ |- _ =>
+               let H' := fresh in assert (H' := fun x => Bool.diff_false_true (proj2 H x)); clear H
+           end;
+    try congruence; clear Es;
+    (repeat split; intros; try reflexivity; try congruence; try tauto;
+     repeat match goal with H : _ \/ _ |- _ => destruct H end; try congruence; try tauto;
+     try subst sch; try (exfalso; tauto); auto 10).
+Qed.
+
 (* ------------------------------------------------------------------ host *)
 Section WithOracles.
 Variable idna : str -> option str.
@@ -354,11 +391,9 @@ Proof. intros [H _]. unfold ru_schema. eapply scanned_schema; eauto. Qed.
 Lemma parsed_hostname ru scheme mid host rest : parsed ru scheme mid host rest -> ru_hostname ru = Ok host.
 Proof. intros [H _]. unfold ru_hostname. eapply scanned_host; eauto. Qed.
 
-(* the registrable domain the model computes: the suffix of the host chosen by the psl oracle *)
-Definition domain_of (host : str) : str := drop (fst (psl host)) host.
 
 Lemma parsed_domain ru scheme mid host rest :
-  parsed ru scheme mid host rest -> ru_domain_str ru = Ok (domain_of host).
+  parsed ru scheme mid host rest -> ru_domain_str ru = Ok (domain_of psl host).
 Proof.
   intros (H & _ & Hd). unfold ru_domain_str, domain_of. rewrite Hd.
   destruct (psl host) as [a b] eqn:E. destruct (Hpsl _ _ _ E) as (Hab & -> & _). cbn [fst snd].
@@ -393,7 +428,7 @@ Inductive source_view (s : str) (host : str) : str -> bool -> Prop :=
 | SrcUnparsable : parse_url idna psl s = Ok None -> source_view s host [] true
 | SrcParsed ps sc' mid' host' rest' :
     parse_url idna psl s = Ok (Some ps) -> parsed ps sc' mid' host' rest' ->
-    source_view s host host' (negb (str_eqb (domain_of host') (domain_of host))).
+    source_view s host host' (negb (str_eqb (domain_of psl host') (domain_of psl host))).
 
 Lemma request_new_char u s t r :
   Request_new idna psl hash tokenize u s t = Ok (Some r) ->
@@ -410,7 +445,7 @@ Proof.
     rewrite (parsed_domain _ _ _ _ _ Hq), (parsed_domain _ _ _ _ _ Hp), (parsed_hostname _ _ _ _ _ Hq).
     cbn [rbind].
     destruct (from_detailed_parameters _ _ _ _ _ _ _ _ _) as [r'|w] eqn:Ef; cbn [rbind]; [|discriminate].
-    intros H; inversion H; subst r'. exists pu, scheme, mid, host, rest, host', (negb (str_eqb (domain_of host') (domain_of host))).
+    intros H; inversion H; subst r'. exists pu, scheme, mid, host, rest, host', (negb (str_eqb (domain_of psl host') (domain_of psl host))).
     split; [reflexivity|]. split; [exact Hp|]. split; [eapply SrcParsed; eauto|exact Ef].
   - destruct (from_detailed_parameters _ _ _ _ _ _ _ _ _) as [r'|w] eqn:Ef; cbn [rbind]; [|discriminate].
     intros H; inversion H; subst r'. exists pu, scheme, mid, host, rest, [], true.
@@ -429,7 +464,7 @@ Proof.
     rewrite (parsed_domain _ _ _ _ _ Hq), (parsed_domain _ _ _ _ _ Hp), (parsed_hostname _ _ _ _ _ Hq).
     cbn [rbind].
     destruct (fdp_total t (ru_url pu) scheme host host'
-                (negb (str_eqb (domain_of host') (domain_of host))) u (parsed_host_ascii _ _ _ _ _ Hq)) as [r ->].
+                (negb (str_eqb (domain_of psl host') (domain_of psl host))) u (parsed_host_ascii _ _ _ _ _ Hq)) as [r ->].
     cbn [rbind]. eexists; reflexivity.
   - destruct (fdp_total t (ru_url pu) scheme host [] true u eq_refl) as [r ->].
     cbn [rbind]. eexists; reflexivity.
@@ -451,55 +486,12 @@ Proof.
   cbn [rbind]. intros H; inversion H. exists i. split; reflexivity.
 Qed.
 
-Definition with_original (r : request) (o : str) : request :=
-  {| request_type_of := request_type_of r; is_http := is_http r; is_https := is_https r;
-     is_supported := is_supported r; is_third_party := is_third_party r; url := url r;
-     hostname := hostname r; source_hostname_hashes := source_hostname_hashes r;
-     url_lower_cased := url_lower_cased r; request_tokens := request_tokens r; original_url := o |}.
-
 Lemma fdp_original t u schema host src tp orig orig' r :
   from_detailed_parameters hash tokenize t u schema host src tp orig = Ok r ->
   from_detailed_parameters hash tokenize t u schema host src tp orig' = Ok (with_original r orig').
 Proof.
   intros H. apply fdp_fields in H as (i & Hi & ->). unfold from_detailed_parameters. rewrite Hi.
   reflexivity.
-Qed.
-
-(* ------------------------------------------------------------------ scheme flags *)
-Lemma scheme_flags_spec schema t :
-  let fl := scheme_flags schema t in
-  (fst (fst (fst fl)) = true <-> schema = S_HTTP) /\
-  (snd (fst (fst fl)) = true <-> schema = S_HTTPS \/ schema = []) /\
-  (snd (fst fl) = true <-> schema = [] \/ In schema supported_schemes) /\
-  (In schema websocket_schemes -> snd fl = RT_Websocket) /\
-  (~ In schema websocket_schemes -> snd fl = cpt_match_type t).
-Proof.
-  destruct schema as [|c0 s0]; cbn zeta.
-  { unfold scheme_flags. cbn [fst snd].
-    split; [split; intros H; discriminate|].
-    split; [split; [intros _; right; reflexivity|reflexivity]|].
-    split; [split; [intros _; left; reflexivity|reflexivity]|].
-    split; [intros [H|[H|[]]]; discriminate|reflexivity]. }
-  unfold scheme_flags. cbv iota beta zeta.
-  remember (c0 :: s0) as sch eqn:Es.
-  assert (Hne : sch <> []) by (subst; discriminate). cbn [fst snd].
-  unfold supported_schemes, websocket_schemes.
-  pose proof (str_eqb_eq sch S_HTTP) as E1. pose proof (str_eqb_eq sch S_HTTPS) as E2.
-  pose proof (str_eqb_eq sch S_WS) as E3. pose proof (str_eqb_eq sch S_WSS) as E4.
-  assert (D12 : S_HTTP <> S_HTTPS) by discriminate. assert (D13 : S_HTTP <> S_WS) by discriminate.
-  assert (D14 : S_HTTP <> S_WSS) by discriminate. assert (D23 : S_HTTPS <> S_WS) by discriminate.
-  assert (D24 : S_HTTPS <> S_WSS) by discriminate. assert (D34 : S_WS <> S_WSS) by discriminate.
-  destruct (str_eqb sch S_HTTP) eqn:B1; destruct (str_eqb sch S_HTTPS) eqn:B2;
-    destruct (str_eqb sch S_WS) eqn:B3; destruct (str_eqb sch S_WSS) eqn:B4; cbn [negb andb orb In];
-    repeat match goal with
-           | H : true = true <-> _ |- _ => pose proof (proj1 H eq_refl); clear H
-           | H : false = true <-> _ |- _ =>
-               let H' := fresh in assert (H' := fun x => Bool.diff_false_true (proj2 H x)); clear H
-           end;
-    try congruence; clear Es;
-    (repeat split; intros; try reflexivity; try congruence; try tauto;
-     repeat match goal with H : _ \/ _ |- _ => destruct H end; try congruence; try tauto;
-     try subst sch; try (exfalso; tauto); auto 10).
 Qed.
 
 (* ------------------------------------------------------------------ dot suffixes *)
@@ -532,25 +524,6 @@ Proof.
         -- intros [<-|Hx]; [left; repeat split; auto; discriminate|right; exact Hx].
         -- intros [(_ & -> & _)|Hx]; [left; reflexivity|right; exact Hx].
     + apply N.eqb_neq in E. rewrite (IH l H x). split; [auto|]. intros [(Hc & _)|Hx]; [congruence|exact Hx].
-Qed.
-
-(* ------------------------------------------------------------------ domain_of under the contract *)
-Lemma firstn_S_nth a : forall (h : str), (a < length h)%nat -> firstn (S a) h = firstn a h ++ [nth a h 0].
-Proof.
-  induction a as [|a IH]; intros [|x h] H; cbn [length] in H; try lia.
-  - reflexivity.
-  - change (x :: firstn (S a) h = x :: (firstn a h ++ [nth a h 0])). f_equal. apply IH. lia.
-Qed.
-
-Lemma domain_of_suffix host :
-  exists pre, host = pre ++ domain_of host /\ (pre = [] \/ exists p, pre = p ++ [DOT]).
-Proof.
-  unfold domain_of. destruct (psl host) as [a b] eqn:E. destruct (Hpsl _ _ _ E) as (Hab & -> & Hdot).
-  cbn [fst]. exists (take a host). split; [symmetry; apply take_drop|].
-  destruct Hdot as [->|Hd]; [left; reflexivity|].
-  destruct a as [|a]; [left; reflexivity|]. right.
-  exists (take a host). cbn [Nat.sub] in Hd. rewrite Nat.sub_0_r in Hd.
-  unfold take. rewrite <- Hd. apply firstn_S_nth. lia.
 Qed.
 
 (* ------------------------------------------------------------------ the property theorems *)
@@ -590,9 +563,7 @@ Proof.
   assert (Hne : scheme <> []) by (destruct Hsc; assumption). split; [exact Hne|].
   split; [eapply scanned_colon; eauto|].
   destruct (scheme_flags_spec scheme t) as (A & B & C & D & E).
-  repeat split; try tauto.
-  - intros X. apply C in X. tauto.
-  - intros X. apply B in X. tauto.
+  repeat split; tauto.
 Qed.
 
 Theorem third_party_iff u s t r :
@@ -600,11 +571,11 @@ Theorem third_party_iff u s t r :
   match parse_url idna psl s with
   | Ok None => is_third_party r = true
   | Ok (Some ps) =>
-      exists sh, ru_hostname ps = Ok sh /\ ru_domain_str ps = Ok (domain_of sh) /\
-                 (is_third_party r = true <-> domain_of sh <> domain_of (hostname r))
+      exists sh, ru_hostname ps = Ok sh /\ ru_domain_str ps = Ok (domain_of psl sh) /\
+                 (is_third_party r = true <-> domain_of psl sh <> domain_of psl (hostname r))
   | Panic _ => False
   end /\
-  exists pu, parse_url idna psl u = Ok (Some pu) /\ ru_domain_str pu = Ok (domain_of (hostname r)).
+  exists pu, parse_url idna psl u = Ok (Some pu) /\ ru_domain_str pu = Ok (domain_of psl (hostname r)).
 Proof.
   intros H. apply request_new_char in H as (pu & scheme & mid & host & rest & sh & tp & Eu & Hp & Hv & Hf).
   apply fdp_fields in Hf as (i & _ & ->). cbn [is_third_party hostname].
@@ -652,3 +623,23 @@ Proof.
 Qed.
 
 End WithOracles.
+
+(* ------------------------------------------------------------------ domain_of under the contract *)
+Lemma firstn_S_nth a : forall (h : str), (a < length h)%nat -> firstn (S a) h = firstn a h ++ [nth a h 0].
+Proof.
+  induction a as [|a IH]; intros [|x h] H; cbn [length] in H; try lia.
+  - reflexivity.
+  - change (x :: firstn (S a) h = x :: (firstn a h ++ [nth a h 0])). f_equal. apply IH. lia.
+Qed.
+
+Lemma domain_of_suffix psl (Hpsl : psl_contract psl) host :
+  exists pre, host = pre ++ domain_of psl host /\ (pre = [] \/ exists p, pre = p ++ [DOT]).
+Proof.
+  unfold domain_of. destruct (psl host) as [a b] eqn:E. destruct (Hpsl _ _ _ E) as (Hab & -> & Hdot).
+  cbn [fst]. exists (take a host). split; [symmetry; apply take_drop|].
+  destruct Hdot as [->|Hd]; [left; reflexivity|].
+  destruct a as [|a]; [left; reflexivity|]. right.
+  exists (take a host). cbn [Nat.sub] in Hd. rewrite Nat.sub_0_r in Hd.
+  unfold take. rewrite <- Hd. apply firstn_S_nth. lia.
+Qed.
+
